@@ -209,4 +209,117 @@ example : readNT MemR.rd 1 { data := [1, 65, 66, 0, 67], pos := 1 } [] = .ok ([6
   rfl
 example : readNT MemR.rd 9 { data := [1, 65, 66], pos := 1 } [] = .error .bounds := by rfl
 
+
+/-! ## `ReadNullTerminatedString` over every slice: the same theorem, by refinement (no correspondence argument) -/
+
+/-- the bytes of a slice's window that lie ahead of its cursor -/
+def sliceAhead {σ : Type} (ab : σ → RSpec) (s : Slice σ) : Bytes :=
+  (sliceAbs ab s).data.drop (sliceAbs ab s).pos
+
+/-- `SliceReader<W>` over ANY wrapped stream that is correct on in-bounds calls, every window, cursor and `maxCount`:
+    the loop delivers what `ntSpec` says of the window ahead of the cursor (the NUL-free prefix of the first `maxCount`
+    bytes, terminator consumed when met); the slice stays well-formed, still exposes the same window, and its own
+    `Position()` has advanced by exactly the consumed count; the window ending first is `Err.bounds` -/
+theorem C12_null_terminated_slice {σ : Type} {W : Wrapped σ} {ab : σ → RSpec} {G : σ → Prop}
+    (ok : WrappedOK W ab G) (m : Nat) (s : Slice σ) (hs : sliceGood G ab s) :
+    match ntSpec (sliceAhead ab s) m with
+    | some (str, n) => ∃ s', readNT (Slice.rd W) m s [] = .ok (str, s') ∧ sliceGood G ab s' ∧
+        sliceAbs ab s' = { sliceAbs ab s with pos := (sliceAbs ab s).pos + n } ∧
+        Slice.position W s' = Slice.position W s + n
+    | none => readNT (Slice.rd W) m s [] = .error .bounds := by
+  have h := readNT_slice_spec ok m s hs
+  unfold sliceAhead
+  cases hn : ntSpec ((sliceAbs ab s).data.drop (sliceAbs ab s).pos) m with
+  | none => rw [hn] at h; exact h
+  | some q =>
+    obtain ⟨str, n⟩ := q
+    rw [hn] at h
+    obtain ⟨s', e, g, a⟩ := h
+    refine ⟨s', e, g, a, ?_⟩
+    rw [slice_position_abs ok s' g, slice_position_abs ok s hs, a]
+
+/-- file slices nested `n + 1` deep -/
+theorem C12_null_terminated_nested (n m : Nat) (s : SliceN (n + 1)) (hs : goodN (n + 1) s) :
+    match ntSpec (sliceAhead (absN n) s) m with
+    | some (str, k) => ∃ s' : SliceN (n + 1), readNT (Slice.rd (wrappedN n)) m s [] = .ok (str, s') ∧ goodN (n + 1) s' ∧
+        absN (n + 1) s' = { absN (n + 1) s with pos := (absN (n + 1) s).pos + k } ∧
+        Slice.position (wrappedN n) s' = Slice.position (wrappedN n) s + k
+    | none => readNT (Slice.rd (wrappedN n)) m s [] = .error .bounds :=
+  C12_null_terminated_slice (wrappedN_ok n) m s hs
+
+/-- slices of memory-backed streams, with the window written out -/
+theorem C12_null_terminated_memory_slice (m : Nat) (s : Slice MemR) (hs : sliceGood RSpec.Inv id s) :
+    match ntSpec (((s.w.data.drop s.start).take s.len).drop (s.w.pos - s.start)) m with
+    | some (str, n) => ∃ s', readNT (Slice.rd memWrapped) m s [] = .ok (str, s') ∧ sliceGood RSpec.Inv id s' ∧
+        sliceAbs id s' = { sliceAbs id s with pos := (sliceAbs id s).pos + n } ∧
+        Slice.position memWrapped s' = Slice.position memWrapped s + n
+    | none => readNT (Slice.rd memWrapped) m s [] = .error .bounds :=
+  C12_null_terminated_slice memWrappedOK m s hs
+
+/-- slices of files, with the window written out (depth 1 of `C12_null_terminated_nested`) -/
+theorem C12_null_terminated_file_slice (m : Nat) (s : Slice FileR) (hs : sliceGood RSpec.Inv id s) :
+    match ntSpec (((s.w.data.drop s.start).take s.len).drop (s.w.pos - s.start)) m with
+    | some (str, n) => ∃ s', readNT (Slice.rd fileWrapped) m s [] = .ok (str, s') ∧ sliceGood RSpec.Inv id s' ∧
+        sliceAbs id s' = { sliceAbs id s with pos := (sliceAbs id s).pos + n } ∧
+        Slice.position fileWrapped s' = Slice.position fileWrapped s + n
+    | none => readNT (Slice.rd fileWrapped) m s [] = .error .bounds :=
+  C12_null_terminated_slice fileWrappedOK m s hs
+
+/-- the `FileReader` model (in-bounds behaviour of `std::ifstream`, trusted base) reads like the abstract reader -/
+theorem fileR_read_eq (s : FileR) (k : Nat) : FileR.read s k = RSpec.rd s k := by
+  unfold FileR.read RSpec.rd
+  simp only [RSpec.step]
+  by_cases h : s.pos + k ≤ s.data.length
+  · rw [if_pos h, if_pos h]
+  · rw [if_neg h, if_neg h]
+
+/-- a bare `FileReader` (model `FileR`): the same description -/
+theorem C12_null_terminated_file (m : Nat) (s : FileR) (h : s.Inv) :
+    readNT FileR.read m s [] =
+      match ntSpec (s.data.drop s.pos) m with
+      | some (str, n) => .ok (str, { s with pos := s.pos + n })
+      | none => .error .bounds := by
+  have e : FileR.read = RSpec.rd := by funext s k; exact fileR_read_eq s k
+  rw [e, readNT_spec m s [] h.1]
+  cases ntSpec (s.data.drop s.pos) m with
+  | none => rfl
+  | some p => obtain ⟨str, n⟩ := p; simp
+
+/-- what lies ahead of a well-formed slice's cursor is `len − Position()` bytes long -/
+theorem sliceAhead_length {σ : Type} {W : Wrapped σ} {ab : σ → RSpec} {G : σ → Prop}
+    (ok : WrappedOK W ab G) (s : Slice σ) (hs : sliceGood G ab s) :
+    (sliceAhead ab s).length = s.len - Slice.position W s := by
+  unfold sliceAhead
+  rw [List.length_drop, sliceAbs_len s hs.2.1, slice_position_abs ok s hs]
+
+/-- the executable driver cuts `maxCount` (possibly 2^64-1) at remaining + 1 on slice backends too: the cut loop
+    satisfies the description for the uncut `maxCount` -/
+theorem C12_null_terminated_slice_fuel_cut {σ : Type} {W : Wrapped σ} {ab : σ → RSpec} {G : σ → Prop}
+    (ok : WrappedOK W ab G) (m : Nat) (s : Slice σ) (hs : sliceGood G ab s) :
+    match ntSpec (sliceAhead ab s) m with
+    | some (str, n) => ∃ s', readNT (Slice.rd W) (min m (s.len - Slice.position W s + 1)) s [] = .ok (str, s') ∧
+        sliceGood G ab s' ∧ sliceAbs ab s' = { sliceAbs ab s with pos := (sliceAbs ab s).pos + n } ∧
+        Slice.position W s' = Slice.position W s + n
+    | none => readNT (Slice.rd W) (min m (s.len - Slice.position W s + 1)) s [] = .error .bounds := by
+  have h := C12_null_terminated_slice ok (min m (s.len - Slice.position W s + 1)) s hs
+  rw [← sliceAhead_length ok s hs, ← ntSpec_fuel_cut] at h
+  rw [← sliceAhead_length ok s hs]
+  exact h
+
+/-- a memory slice `[2,5)` of an 8-byte buffer: the hypotheses hold, the string stops at the NUL inside the window,
+    the terminator is consumed, the bytes outside the window (another NUL-free run) are never looked at -/
+example : sliceGood RSpec.Inv id ({ w := { data := [9, 9, 65, 0, 66, 67, 0, 9], pos := 2 }, start := 2, len := 3 } : Slice MemR) := by
+  refine ⟨⟨by decide, by decide⟩, by decide, by decide, by decide⟩
+example : readNT (Slice.rd memWrapped) 10 { w := { data := [9, 9, 65, 0, 66, 67, 0, 9], pos := 2 }, start := 2, len := 3 } [] =
+    .ok ([65], { w := { data := [9, 9, 65, 0, 66, 67, 0, 9], pos := 4 }, start := 2, len := 3 }) := by rfl
+/-- … and from behind that NUL the window ends (at offset 5) before the next terminator (at offset 6): an error -/
+example : readNT (Slice.rd memWrapped) 10 { w := { data := [9, 9, 65, 0, 66, 67, 0, 9], pos := 4 }, start := 2, len := 3 } [] =
+    .error .bounds := by rfl
+example : ntSpec (sliceAhead id ({ w := { data := [9, 9, 65, 0, 66, 67, 0, 9], pos := 2 }, start := 2, len := 3 } : Slice MemR)) 10 =
+    some ([65], 2) := by decide
+/-- a file slice of a file slice (depth 2) of the same bytes -/
+example : readNT (Slice.rd (wrappedN 1)) 10
+    ({ w := { w := { data := [9, 9, 65, 0, 66, 67, 0, 9], pos := 2 }, start := 1, len := 6 }, start := 1, len := 3 } : SliceN 2) [] =
+    .ok ([65], { w := { w := { data := [9, 9, 65, 0, 66, 67, 0, 9], pos := 4 }, start := 1, len := 6 }, start := 1, len := 3 }) := by rfl
+
 end Op2.Props.C12
